@@ -467,3 +467,31 @@ def _expandxy_clears(f: FuncInfo):
                            "i + nlen of every mode outside `modes`: symp.expand pads with the identity, so every "
                            "channel would add noise to all spectator modes")
     return True, ""
+
+
+def polar_pair(ctx, rule, rels):
+    """a complex amplitude handed to a displacement in polar form is (|z|, arg z) of ONE z"""
+    ctx.explain(f"{rule}: where a displacement (Dgate / displacement matrix / coherent preparation) receives `np.abs(z)` as its "
+                "modulus, the phase argument that follows is `np.angle(z)` of the same z - a constant phase silently maps "
+                "every z with a non-zero argument (e.g. a negative homodyne outcome) to |z|.")
+    n = 0
+    for rel in rels:
+        for f in ctx.tree.module(rel).functions.values():
+            for c in walk_no_nested(f.node):
+                if not isinstance(c, ast.Call):
+                    continue
+                cn = (dotted(c.func) or "").split(".")[-1]
+                if not (cn in ("Dgate", "displacement", "Coherent", "DisplacedSqueezed", "displace", "displacement_kernel")
+                        or "coherent" in cn):
+                    continue
+                for i, a in enumerate(c.args[:-1]):
+                    if isinstance(a, ast.Call) and dotted(a.func) in ("np.abs", "abs", "np.absolute") and len(a.args) == 1:
+                        z = ast.unparse(a.args[0]).replace(" ", "")
+                        nxt = c.args[i + 1]
+                        n += 1
+                        ok = isinstance(nxt, ast.Call) and dotted(nxt.func) in ("np.angle", "cmath.phase", "np.arctan2") and \
+                            nxt.args and z in ast.unparse(nxt).replace(" ", "")
+                        ctx.ob(rule, f.site, ok, "" if ok else f"`{ast.unparse(c)[:60]}`: modulus of `{z}` but phase "
+                               f"`{ast.unparse(nxt)[:20]}` - the argument of `{z}` is lost", role=f"polar:{cn}", line=c.lineno)
+                        break
+    return n
